@@ -143,6 +143,13 @@ def holdsOutcome (H : Str → Str) (side : Side) (ex : List Str) : Input → Out
 def holdsTxn (H : Str → Str) (ex : List Str) (reqBody respBody : Input) (o : Outcome × Outcome) : Bool :=
   holdsOutcome H .req ex reqBody o.1 && holdsOutcome H .resp ex respBody o.2
 
+/-- The property on several overlapping calls: every answer satisfies the property for ITS OWN body and
+    exclusions (nothing of another call's body may appear in it, nothing of its own may be missing). -/
+def holdsMany (H : Str → Str) : List (List Str × Input) → List Outcome → Bool
+  | [], [] => true
+  | c :: cs, o :: os => holdsOutcome H .raw c.1 c.2 o && holdsMany H cs os
+  | _, _ => false
+
 /-- Classifier of a failing case: no finding of C16 is open (F16a, F16b repaired by fixes/F16a.patch). -/
 def finding (_side : Side) (_ex : List Str) (_d : Json) : Option String := none
 
